@@ -191,7 +191,7 @@ CHECKS = {
    note=COMMON_NOTE + "The standard model of floating-point arithmetic (and, for the text direction, the half-ulp bound and idempotence of rounding) are hypotheses of the theorems (not proved for the executable roundF64, which is validated against CPython instead). Strings with a denominator symbol other than the coin unit are, since the repair of F52, the same pipeline (exact decimal product, rounded once); that float(Decimal) is correctly rounded is CPython's documented behaviour, checked by the run over the whole supply range in every unit. "
         "Where more than 8 decimals would be needed (denominators above the coin unit) any correct rounding of the last shown digit is accepted. Non-negativity of output and fee amounts is checked under C07."),
  'C16': dict(
-   technique='Lean 4 theorems (slot/taint invariant over all call histories: only slots cleared by public() can hold secret-derived data) + per-attribute taint measurement and every-encoding scan of all public views of real objects',
+   technique='Lean 4 theorems (slot/taint invariant over all call histories: only slots cleared by public() can hold secret-derived data; decision logic of the encrypted database column types: switched on => every written value is the cipher output under the selected key, key wins over password, round trips, ciphertext without key refused) + per-attribute taint measurement, every-encoding scan of all public views of real objects, and a differential run of the column types in subprocesses under every kind of field-encryption configuration',
    text=("Proved in Lean on a slot/taint abstraction of Key/HDKey: for EVERY history of method calls (wif, address, hash160, as_dict with and "
          "without private data, info, public_point) only slots in the set that public() clears can hold secret-derived data, hence the public "
          "view is clean whatever was called before; with the clearing set of the pinned tree the history [wif] (or [info] on an HDKey) leaves the "
@@ -200,7 +200,15 @@ CHECKS = {
          "key for every private version) is reachable, compares the tainted sets of the private object and of its public() view with the model, "
          "and scans pickle, deepcopy + attribute walk, repr, str, as_dict, as_json, info() output, wif_public of the public view, the default "
          "exports of private objects, wallets (repr of keys, as_dict/as_json/info, public_master, watch-only wallets) and the sqlite file written "
-         "with field encryption switched on by key, by password and by both. Found and fixed: F12, F22."),
+         "with field encryption switched on by key, by password and by both. The field encryption itself (db.py: _get_encryption_key, EncryptedBinary, "
+         "EncryptedString) is transcribed in DbCrypt.lean with the cipher and the password hash as parameters; proved for every configuration, "
+         "value, cipher and hash: a key is selected exactly when a key or password is supplied, the key wins over the password, with encryption "
+         "switched on every value written to a private/wif column is the cipher output under the selected key (never the value), write-then-read "
+         "is the identity with and without encryption, a text column written under a key is refused (not returned) when read without key, and "
+         "whatever the cipher refuses under another key is refused. The harness imports the library in a subprocess per configuration (config.ini "
+         "switch x key unset/empty/set x password unset/empty/set, random keys and passwords), binds and reads back values through the real column "
+         "types with real AES-SIV, classifies what was handed to the database by decrypting it with the candidate keys, and compares every "
+         "decision with the model; it also checks that every column named private/wif in the schema has an encrypted type. Found and fixed: F12, F22."),
    design_ref='DESIGN.md §5 C16',
    note=COMMON_NOTE + "The object walk enumerates what Python exposes (__dict__ of bitcoinlib objects, containers, pickle bytes); it is not a proof about the interpreter. "
         "info(), wif(), as_dict(include_private=True) of a PRIVATE object are explicit private exports, not public views."),
